@@ -228,6 +228,45 @@ func runC19(c *Ctx) {
 			}
 			c.check(okK && okV, "R2", "ext[name] = data of the decoded pair", pos(in), "c.ext[ext.Name] = ext.Data", "the extension table is filled with something other than the advertised name/data pair")
 		})
+		if n == 0 {
+			// the table handed to recvVersion as an argument: an update of a map parameter, where every caller passes
+			// the Client's ext field in that position
+			eachInstr(rv, func(in ssa.Instruction) {
+				mu, ok := in.(*ssa.MapUpdate)
+				if !ok {
+					return
+				}
+				prm, ok := mu.Map.(*ssa.Parameter)
+				if !ok {
+					return
+				}
+				idx := -1
+				for i, q := range rv.Params {
+					if q == prm {
+						idx = i
+					}
+				}
+				sites := p.callersOfStatic(rv)
+				all := idx >= 0 && len(sites) > 0
+				for _, site := range sites {
+					args := callOf(site).Args
+					isExt := false
+					if idx < len(args) {
+						for _, l := range leavesOf(args[idx]) {
+							if l.Kind == leafFieldLoad && l.Field == "ext" {
+								isExt = true
+							}
+						}
+					}
+					if !isExt {
+						all = false
+					}
+				}
+				if all {
+					n++
+				}
+			})
+		}
 		c.check(n >= 1, "R2", "extensions are recorded", p.Pos(rv.Pos()), "one update site", "recvVersion no longer records the advertised extensions")
 		if hx := p.Func("(*Client).HasExtension"); hx == nil {
 			c.missing("R2", "(*Client).HasExtension")
